@@ -46,6 +46,12 @@ func forwardOf(g *ssa.Function) *forwardInfo {
 				if _, isB := x.Common().Value.(*ssa.Builtin); isB {
 					return nil
 				}
+				// a nullary library call whose result is only handed on (context.Background()) is an argument
+				if len(x.Common().Args) == 0 && !x.Common().IsInvoke() {
+					if f, isF := x.Common().Value.(*ssa.Function); isF && f.Blocks == nil {
+						continue
+					}
+				}
 				if call != nil {
 					return nil
 				}
@@ -144,7 +150,9 @@ func adoptMovedBodies(p *Prog) {
 		}
 		bodyMovedOut[f] = true
 		delete(forwardMemo, f)
+		nNotes := len(RenameNotes)
 		fi := forwardOf(f)
+		RenameNotes = RenameNotes[:nNotes]
 		if fi == nil || fi.inner.Pkg != f.Pkg || recordedFuncNames[recordedString(fi.inner.String())] || fi.inner.Blocks == nil {
 			delete(bodyMovedOut, f)
 			delete(forwardMemo, f)
@@ -157,6 +165,7 @@ func adoptMovedBodies(p *Prog) {
 		}
 		renamed[fi.inner.String()] = name
 		restored[name] = fi.inner
+		delete(recordedOrderMemo, fi.inner)
 		RenameNotes = append(RenameNotes, "body of "+name+" moved to "+fi.inner.String()+" (the recorded name now stands for it)")
 	}
 }
